@@ -29,7 +29,8 @@ WORDS = ("the quick brown fox jumps over a lazy dog while many other small words
 CJK = ["中文", "日本語", "汉字abc", "abc汉字"]
 TYPO = ['"quoted"', "'single'", "it's", "don't", "James'", "wait...", "...so", "and...then", '"two', 'words"',
         "x=\"v\"", "'tis", "rock'n'roll", '("paren")', "end...\"", "—\"dash\"", "hmm....", "a . . . b", "..",
-        "\"nested", "'inner'", "quotes\"", "Jill's", "\\\"esc\\\"", "5'10\""]
+        "\"nested", "'inner'", "quotes\"", "Jill's", "\\\"esc\\\"", "5'10\"", "don't...can't", "it's...isn't", "'x'...'y'",
+        "word…", "…word", "“…and", "a … b"]
 CODE_CORE = ["`x`", "`a b`", "`foo(bar, baz)`", "`--flag value`", "`*not em*`", "`<tag attr>`", "`it's \"q\"...`",
              "`a|b`", "`{% t %}`", "`[l](u)`", "`` a`b ``", "`` `x` ``", "``` a``b ```", "`` `a - b ``", "`` 1. `x` # y ``",
              "`a  b`", "`- x`"]
